@@ -12,7 +12,7 @@ cp $WT/demo_$PID.py /verif/seeded/$ID/ 2>/dev/null
 import json,sys
 i,pid=sys.argv[1:3]; extra=sys.argv[3:]
 json.dump({"property":pid,"caught_by":[pid]+extra,"what":"TODO","needs":"TODO",
- "origin":"independent sub-agent (round 11), given only the property text, the ideas already taken and a scratch worktree, told to aim for a rare corner",
+ "origin":"independent sub-agent (round 13), given only the property text, the ideas already taken and a scratch worktree, told to aim for a rare corner and to prefer history or scheduling",
  "confirmed":"selftest/verify_seeded.sh: demo exits 0 without / non-zero with the change; unedited suite with the change: 103 passed = the 103 stable tests"},
  open('/verif/seeded/%s/meta.json'%i,'w'),indent=1)
 PY
